@@ -177,6 +177,17 @@ func Run(a vc.Args) {
 	go mc.VerifOfflineBlockFetcher(bg)
 
 	id := 0
+	// (1) behaviours of the environment generated by TLC from spec/Gen_RoundTrace.tla
+	for _, raw := range vc.Behaviours(a.Behav) {
+		id++
+		if a.Only != 0 && a.Only != id {
+			rc.TraceID = id
+			continue
+		}
+		rc.TraceID = id - 1
+		d.replayTrace(id, raw, vc.TraceRand(a.Seed, id))
+	}
+	// (2) seeded random histories
 	for i := 0; i < a.N; i++ {
 		id++
 		if a.Only != 0 && a.Only != id {
